@@ -173,6 +173,10 @@ class Sut:
                     f.P[:] = list(op[1])
                     f.G[:] = list(op[2])
                 (self.e.load_filtered_policy if op[0] == 1 else self.e.load_increment_filtered_policy)(f)
+            elif op[0] == 4:
+                self.e.enable_auto_build_role_links(bool(op[1]))      # the caller's switch (non-default: off)
+            elif op[0] == 5:
+                self.e.build_role_links()                              # the caller builds the links himself
             else:
                 self.e.save_policy()
             return [0, []]
@@ -206,6 +210,7 @@ def spec_check(chk, text, gcount, ops, base, steps):
     counts = dict(g=gcount, g2=2)
     partial = True          # history variable "the loaded policy is a partial view" (Filtered.ghost_next)
     load_raised = False
+    auto = True             # the caller's switch enable_auto_build_role_links (op 4); op 5 = build_role_links()
     # spec requests for the load steps
     reqs, where = [], []
     for i, op in enumerate(ops):
@@ -234,6 +239,10 @@ def spec_check(chk, text, gcount, ops, base, steps):
                     bad.append((i, "the policy file changed although the loaded policy is a filtered subset", "unchanged", "changed"))
             elif res != [0, []]:
                 bad.append((i, "save_policy raised although the policy is not filtered", [0, []], res))
+        elif op[0] in (4, 5):
+            if file_a != file_b or model_a != model_b or flag_a != flag_b:
+                bad.append((i, "enable_auto_build_role_links / build_role_links changed the policy file, the loaded policy or is_filtered()",
+                            "unchanged", "changed"))
         elif file_a != file_b:
             bad.append((i, "a load operation changed the policy file", "unchanged", "changed"))
         # (2) the flag
@@ -272,13 +281,30 @@ def spec_check(chk, text, gcount, ops, base, steps):
             partial = (not py_empty_filter(op[1], op[2])) if adapter_done else True
         elif op[0] == 2:
             partial = (not py_empty_filter(op[1], op[2])) if adapter_done else partial
-        if op[0] != 3 and not ok:
+        if op[0] in (0, 1, 2) and not ok:
             load_raised = True
         if op[0] in (0, 1, 2) and res == [0, []]:
             # (4) links from exactly the loaded g rules
             want_links = [[k, [r[:counts[core.wstr(k)]] for r in pol]] for s, k, pol in model_a if chr(s) == "g"]
+            if auto:
+                if links_a != want_links:
+                    bad.append((i, "role links are not those of the loaded g rules", want_links, links_a))
+            else:
+                # auto-build switched OFF by the caller: the load itself builds nothing, the caller will (op 5).  What the
+                # role managers hold in the meantime must still come from the loaded policy: a link that no loaded g rule
+                # gives (left over from an earlier load) answers role queries from rules that are not in memory
+                want_by = {repr(k): ls for k, ls in want_links}
+                stale = [[k, [l for l in ls if l not in want_by.get(repr(k), [])]] for k, ls in links_a]
+                if any(ls for k, ls in stale):
+                    bad.append((i, "role links are not those of the loaded g rules (auto-build off: the role managers still hold "
+                                   "links that no loaded g rule gives)", want_links, links_a))
+        if op[0] == 4 and res == [0, []]:
+            auto = bool(op[1])
+        if op[0] == 5 and res == [0, []]:
+            # the caller's own build_role_links(): from now on the links are exactly those of the loaded g rules
+            want_links = [[k, [r[:counts[core.wstr(k)]] for r in pol]] for s, k, pol in model_a if chr(s) == "g"]
             if links_a != want_links:
-                bad.append((i, "role links are not those of the loaded g rules", want_links, links_a))
+                bad.append((i, "after build_role_links() the role links are not those of the loaded g rules", want_links, links_a))
     bad = [b if len(b) == 5 else b + (None,) for b in bad]
     return bad, nontrivial
 
@@ -427,10 +453,48 @@ def gen_ops_boundary(rng, rules, lo=2, hi=6):
     return ops
 
 
+def gen_file_roles(rng, gcount):
+    """a plain file with at least two g rules (so that a filter can keep one and drop one)"""
+    for _ in range(20):
+        text, rules = gen_file(rng, gcount, "plain")
+        if sum(1 for pt, _r in rules if pt == "g") >= 2:
+            break
+    return text, rules
+
+
+def gen_ops_autobuild(rng, rules):
+    """filtered / incremental / full loads and save attempts with the caller's switch enable_auto_build_role_links turned
+    off and on again in between (op 4) and the caller's own build_role_links() (op 5); most traces first load with the
+    switch on (links exist), then turn it off"""
+    ops = []
+    auto = True
+    if rng.random() < 0.7:
+        ops.append([0] if rng.random() < 0.6 else [1, *gen_filter(rng, rules)])
+        ops.append([4, 0])
+        auto = False
+    for _ in range(rng.randint(2, 7)):
+        r = rng.random()
+        if r < 0.18:
+            auto = (not auto) if rng.random() < 0.85 else auto
+            ops.append([4, int(auto)])
+        elif r < 0.30:
+            ops.append([5])
+        elif r < 0.58:
+            ops.append([1, *(gen_blank_filter(rng) if rng.random() < 0.15 else gen_filter(rng, rules))])
+        elif r < 0.74:
+            ops.append([2, *gen_filter(rng, rules)])
+        elif r < 0.88:
+            ops.append([0])
+        else:
+            ops.append([3])
+    return ops
+
+
 # ----------------------------------------------------------------------------- one case
 def judge(chk, text, gcount, ops, record=True, stratum="", filter_mode="fresh"):
     base, steps = run_trace(text, gcount, ops, filter_mode)
-    model = chk.oracle.query([(1, [counts_wire(gcount), text, base, ops])])[0]
+    # traces with the caller's switch / own link building (ops 4, 5) are outside Filtered.v: implementation-level SPEC only
+    model = None if any(op[0] in (4, 5) for op in ops) else chk.oracle.query([(1, [counts_wire(gcount), text, base, ops])])[0]
     bad, nontrivial = spec_check(chk, text, gcount, ops, base, steps)
     case = dict(kind="trace", file=text, gcount=gcount, ops=ops, stratum=stratum)
     if filter_mode != "fresh":
@@ -441,7 +505,7 @@ def judge(chk, text, gcount, ops, record=True, stratum="", filter_mode="fresh"):
         if record:
             i, what, want, got, fid = bad[0]
             chk.spec_fail(case, dict(step=i, got=got, outcomes=[s[0] for s in steps]), want, what, finding=fid)
-    elif canon(steps) != model:
+    elif model is not None and canon(steps) != model:
         verdict = "model"
         if record:
             first = next((i for i, (a, b) in enumerate(zip(canon(steps), model)) if a != b), None)
@@ -485,7 +549,7 @@ def shrink(chk, text, gcount, ops, verdict, filter_mode="fresh"):
     return text, ops
 
 
-def run(chk, n_random, masks_files, maxlen, n_reuse=0, n_pairs=0):
+def run(chk, n_random, masks_files, maxlen, n_reuse=0, n_pairs=0, n_auto=0):
     if chk.oracle is None:
         chk.notes.append("oracle unavailable; correspondence not run")
         return
@@ -534,6 +598,21 @@ def run(chk, n_random, masks_files, maxlen, n_reuse=0, n_pairs=0):
             gcount = rng.choice([2, 3])
             text, rules = gen_file(rng, gcount, rng.choice(["plain", "plain", "odd"]))
             cases.append((text, gcount, gen_ops_boundary(rng, rules), "filter_object_" + mode, mode))
+    # E: the non-default configuration enable_auto_build_role_links(False) - and switched back on - around filtered,
+    # incremental and full loads; the caller builds the links himself (build_role_links)
+    dom = "p, alice, data1, read\np, bob, data2, write\ng, alice, admin, dom1\ng, bob, admin, dom2\ng2, data1, data_group\n"
+    if n_auto:
+        cases += [
+            (full, 2, [[0], [4, 0], [1, ["alice"], ["bob"]], [5], [3]], "auto_build_off/fixed"),
+            (dom, 3, [[0], [4, 0], [1, [], ["", "", "dom1"]], [5], [2, [], ["", "", "dom2"]], [5]], "auto_build_off/fixed"),
+            (dom, 3, [[1, [], ["bob"]], [4, 0], [1, [], ["alice"]], [4, 1], [2, ["bob"], []], [3]], "auto_build_off/fixed"),
+            (dom, 3, [[4, 0], [1, [], ["alice"]], [5], [1, [], ["bob"]], [0], [5], [3]], "auto_build_off/fixed"),
+            (full, 2, [[0], [4, 0], [0], [1, ["bob"], ["nobody"]], [4, 1], [0]], "auto_build_off/fixed"),
+        ]
+    for _ in range(n_auto):
+        gcount = rng.choice([2, 3])
+        text, rules = gen_file_roles(rng, gcount)
+        cases.append((text, gcount, gen_ops_autobuild(rng, rules), "auto_build_off"))
     counts = {}
     covered_masks = set()
     for case in cases:
@@ -542,6 +621,14 @@ def run(chk, n_random, masks_files, maxlen, n_reuse=0, n_pairs=0):
         verdict, base, steps, model, nontrivial = judge(chk, text, gcount, ops, record=False, stratum=st, filter_mode=fmode)
         st = st.split("/")[0]
         counts[st] = counts.get(st, 0) + 1
+        if st == "auto_build_off":
+            # non-trivial here: some load happens while the switch is off
+            off, nontrivial = False, False
+            for op in ops:
+                if op[0] == 4:
+                    off = not op[1]
+                elif op[0] in (0, 1, 2) and off:
+                    nontrivial = True
         chk.count(((text, gcount, json.dumps(ops)) + (() if fmode == "fresh" else (fmode,))) if nontrivial else None)
         if st == "masks":
             covered_masks.add((tuple(not blank(v) for v in ops[0][1]), tuple(not blank(v) for v in ops[0][2])))
@@ -557,7 +644,7 @@ def run(chk, n_random, masks_files, maxlen, n_reuse=0, n_pairs=0):
                 continue
             t2, o2 = shrink(chk, text, gcount, ops, verdict, fmode)
             judge(chk, t2, gcount, o2, record=True, stratum=st + "/shrunk", filter_mode=fmode)
-        elif len(vm_reqs) < (160 if chk.tier == "quick" else 800) and len(text) < 200:
+        elif model is not None and len(vm_reqs) < (160 if chk.tier == "quick" else 800) and len(text) < 200:
             vm_reqs.append((1, [counts_wire(gcount), text, base, ops]))
             vm_reps.append(model)
     stratum_store_unavailable(chk)
@@ -854,7 +941,7 @@ def replay(chk):
         sys.exit(1)
     verdict, base, steps, model, _ = judge(chk, c["file"], c["gcount"], c["ops"], record=False, filter_mode=c.get("filter_object", "fresh"))
     bad, _ = spec_check(chk, c["file"], c["gcount"], c["ops"], base, steps)
-    print(f"replay: outcomes={[s[0] for s in steps]} flags={[s[1][0] for s in steps]} model_agrees={canon(steps) == model}")
+    print(f"replay: outcomes={[s[0] for s in steps]} flags={[s[1][0] for s in steps]} model_agrees={(canon(steps) == model) if model is not None else 'n/a (implementation-level stratum)'}")
     if bad:
         print(f"  spec: step {bad[0][0]}: {bad[0][1]}")
         if bad[0][4] and all(b[4] == bad[0][4] for b in bad) and \
@@ -878,28 +965,33 @@ def main():
                 "filter keeps at least one and drops at least one p or g rule; distinct by (file, model, operations); "
                 "the same kind of trace with ONE Filter object kept by the caller and edited between the loads (sequences crossing "
                 "the empty / restricting boundary), and pairs of such traces interleaved on TWO enforcers with their own adapter "
-                "objects and stores in one process")
+                "objects and stores in one process; traces in which the caller switches enable_auto_build_role_links off and on again "
+                "around filtered / incremental / full loads and builds the links himself (build_role_links) - non-trivial there = some "
+                "load happens while the switch is off")
     chk.assumptions = [
         "filters carry both attributes P and G as lists of strings (a Filter with only one of them set raises 'invalid filter type')",
         "the length clause of filter_words is part of the characterisation: a filter with more positions than the rule has fields drops the rule even if the extra positions are blank (C12_kept_iff states it)",
         "known finding C12/filter_splits_at_bracketed_commas: filter_line splits a line at EVERY comma while the loader splits at top-level commas only, so on a p/g rule with a comma inside brackets the filter looks at the wrong pieces; the rule-level theorems (C12_filtered_load_is_subset_exactly_partial ...) carry the guard plain_text (bracket-free lines with a non-blank first field), C12_filtered_load_is_subset_exactly_refuted is the witness; the line-level theorems (kept_iff, never_overwrites, flags, links) have no such guard",
-        "the policy file exists and is UTF-8; auto_build_role_links stays enabled; no priority / subject-hierarchy model",
+        "the policy file exists and is UTF-8; no priority / subject-hierarchy model; auto_build_role_links stays enabled in the traces "
+        "compared with Filtered.v - the traces that switch it off and on (stratum auto_build_off) are judged by the implementation-level "
+        "SPEC only: with the switch off a load builds no links, the links that exist must still be given by loaded g rules, and the "
+        "caller's build_role_links() makes them exactly those of the loaded g rules",
         "known finding C12/failed_load_unguards_save: a load that raises (unparsable line, g rule shorter than the role definition) after the adapter already cleared its flag — or half-way through an empty-filter load — leaves a partial view with is_filtered() False; C12_partial_view_guarded_partial carries the guard 'no load raised', C12_partial_view_guarded_refuted the witness",
         "AsyncEnforcer.load_increment_filtered_policy is C18's concern",
     ]
     chk.trusted = ["hand-written model coq/theories/Filtered.v (+ Csv.v) of filtered_file_adapter.py and the four Enforcer "
                    "methods (tied by the differential run of this check)",
                    "role links are observed at RoleManager/DomainManager.add_link/clear (recording subclasses of the real managers)"]
-    chk.build(translators=["loadline", "filterline"])
+    chk.build(translators=["loadline", "filterline", "filtered"])
     if chk.replay_file:
         return replay(chk)
     if chk.tier == "thorough":
-        run(chk, 20000, 20, 6, 2500, 4000)
+        run(chk, 20000, 20, 6, 2500, 4000, 4000)
     else:
-        run(chk, 1200, 3, 5, 150, 250)
+        run(chk, 1200, 3, 5, 150, 250, 300)
         if (chk.broken() or chk.anchor_changed) and not chk.spec_failures:
             chk.notes.append("escalated to a bigger budget after a broken proof/correspondence")
-            run(chk, 2500, 4, 5, 400, 800)
+            run(chk, 2500, 4, 5, 400, 800, 1200)
     chk.finish()
 
 
